@@ -1,9 +1,9 @@
 SPECIFICATION Spec
 CONSTANTS
   Vars = {"x", "c"}
-  MaxTok = 7
+  MaxTok = 6
   MaxDepth = 2
-  Types = {"i", "s"}
+  Types = {"i"}
   CondVars = {"c", "x"}
   Copies = TRUE
   Flags = {}
